@@ -21,12 +21,14 @@ from .gen_tables import gen_column, diff_frames, canon_cell, canon_series
 ASSUMPTIONS = ["text round trip of float / timestamp partition values (repr, isoformat, pandas parsing) is outside the Lean model: exercised here",
                "pandas groupby(sort=True) orders groups by key"]
 
-PK = ["int", "int_neg", "float", "bool", "dt", "dt_sub", "str", "str_num", "cat", "int_null"]
+PK = ["int", "int_neg", "float", "bool", "dt", "dt_sub", "str", "str_num", "cat", "int_null", "int_big"]
 
 
 def part_col(rng, kind, n):
     if kind == "int":
         return pd.Series(np.array([rng.choice([0, 1, 7, 12]) for _ in range(n)], dtype="int64"))
+    if kind == "int_big":      # adjacent keys beyond the exact range of a double
+        return pd.Series(np.array([rng.choice([2 ** 53, 2 ** 53 + 1, 2 ** 62 + 3, 5]) for _ in range(n)], dtype="int64"))
     if kind == "int_neg":
         return pd.Series(np.array([rng.choice([-3, 0, 5]) for _ in range(n)], dtype="int32"))
     if kind == "float":
@@ -36,7 +38,9 @@ def part_col(rng, kind, n):
     if kind == "dt":
         return pd.Series(pd.to_datetime([rng.choice(["2020-01-01", "2021-06-30", "1999-12-31"]) for _ in range(n)]))
     if kind == "dt_sub":
-        return pd.Series(pd.to_datetime([rng.choice(["2020-01-01 10:00:00.123456789", "2020-01-01 10:00:00.123456", "2020-01-01 10:00:00"]) for _ in range(n)], format="ISO8601"))
+        pool = ["2020-01-01 10:00:00.123456789", "2020-01-01 10:00:00.123456", "2020-01-01 10:00:00"]
+        # the first rows take every value in turn, so keys that differ only below the microsecond are always present together
+        return pd.Series(pd.to_datetime([pool[i] if i < 3 else rng.choice(pool) for i in range(n)], format="ISO8601"))
     if kind == "str":
         return pd.Series([rng.choice(["a", "bb", "Paris", "é"]) for _ in range(n)], dtype=object)
     if kind == "str_num":
@@ -63,22 +67,32 @@ def run(ctx, report):
         kinds = rng.sample(PK, npart)
         if d < len(PK):
             kinds = [PK[d]] + kinds[1:]
+        elif d == len(PK):
+            kinds, scheme = ["int", "int", "str_num"], "hive"      # the same value text under several partition columns
+        if scheme == "drill" and d < len(PK) and PK[d] not in ("int", "int_neg", "bool", "str", "cat"):
+            scheme = "hive"          # every key kind is exercised at least once (drill only carries plain keys)
         if scheme == "drill":
             kinds = [k for k in kinds if k in ("int", "int_neg", "bool", "str", "cat")] or ["int"]
         n = rng.choice([1, 6, 15, 30])
+        if d <= len(PK):
+            n = max(n, 6)       # the directed datasets hold several keys
         df = pd.DataFrame({"rid": np.arange(n, dtype="int64")})
         vk = rng.sample(["float_nan", "str", "int32", "Int64", "dt_ns"], 2)
         for j, k in enumerate(vk):
             col = gen_column(rng, k, n, rng.choice(["none", "some"]))
             df[f"v{j}"] = col.values if k not in ("Int64",) else col
         pnames = []
+        # partition column names: plain identifiers and (hive only) names with other characters - the name is path text too
+        fancy = scheme == "hive" and rng.random() < 0.4
+        pool = ["trade-year", "geo.region", "unit price", "größe", "a_b1"] if fancy else []
         for j, k in enumerate(kinds):
-            df[f"p{j}"] = part_col(rng, k, n).values if k != "cat" else part_col(rng, k, n)
-            pnames.append(f"p{j}")
+            nm = f"p{j}" if not fancy else rng.choice(pool) + str(j)
+            df[nm] = part_col(rng, k, n).values if k != "cat" else part_col(rng, k, n)
+            pnames.append(nm)
         offs = rng.choice([None, [0], [0, n // 2] if n > 1 else [0], 4, 7])
         path = os.path.join(ctx.workdir("c08"), f"d{d}")
         shutil.rmtree(path, ignore_errors=True)
-        rec = {"check": "partitioned", "scheme": scheme, "key_kinds": kinds, "rows": n, "offsets": str(offs)}
+        rec = {"check": "partitioned", "scheme": scheme, "key_kinds": kinds, "rows": n, "offsets": str(offs), "names": pnames}
         ctx.crumb(rec)
         try:
             fastparquet.write(path, df, file_scheme=scheme, partition_on=pnames, row_group_offsets=offs, write_index=False)
@@ -148,9 +162,14 @@ def run(ctx, report):
                             continue
                         gv = g[p].astype(object).tolist() if isinstance(g[p].dtype, pd.CategoricalDtype) else g[p].tolist()
                         ev = e[p].astype(object).tolist() if isinstance(e[p].dtype, pd.CategoricalDtype) else e[p].tolist()
+                        def same_num(a, b):
+                            # integers must come back exactly (a key beyond 2**53 does not survive a detour through float)
+                            if isinstance(a, (int, np.integer)) and isinstance(b, (int, np.integer)):
+                                return int(a) == int(b)
+                            return float(a) == float(b)
                         bad = [(a, b) for a, b in zip(ev, gv) if canon_cell(a) != canon_cell(b) and not (
                             isinstance(a, (int, float, np.integer, np.floating)) and not isinstance(a, (bool, np.bool_)) and isinstance(b, (int, float, np.integer, np.floating))
-                            and not isinstance(b, (bool, np.bool_)) and float(a) == float(b) and type(a).__name__[:3] == type(b).__name__[:3])]
+                            and not isinstance(b, (bool, np.bool_)) and same_num(a, b) and type(a).__name__[:3] == type(b).__name__[:3])]
                         if bad:
                             a, b = bad[0]
                             probs.append(f"partition column {p} ({k}): value {a!r} ({type(a).__name__}) came back as {b!r} ({type(b).__name__})")
